@@ -225,7 +225,7 @@ def tmap(t, f, memo=None):
     return rec(t)
 
 
-def expand(ev, t, keep=(), limit=400):
+def expand(ev, t, keep=(), limit=400, keep_attrs=()):
     """inline (recursively) every call of a repo helper whose qualified name is not in `keep` and that the
     evaluator can inline; kernel vocabulary (the functions a rule talks about) is listed in `keep`."""
     count = [0]
@@ -237,7 +237,10 @@ def expand(ev, t, keep=(), limit=400):
             q = fn.ref.qual if fn.op == "ref" else None
             if q is not None and (q in keep or not q.startswith("autograd.")):
                 return x
-            if fn.op not in ("ref", "closure", "partial"):
+            if fn.op == "attr":
+                if fn.name in keep_attrs or not (fn.obj.op == "sym" and fn.obj.get("cls") is not None):
+                    return x
+            elif fn.op not in ("ref", "closure", "partial", "if"):
                 return x
             r = ev.inline(x)
             if r is not None and r.op != "unknown":
